@@ -23,9 +23,16 @@ import (
 	"golang.org/x/text/language"
 )
 
+type hop struct {
+	Op string `json:"op"` // new | set | read | fmt
+	I  int    `json:"i"`
+	S  string `json:"s"` // hex: NewConfig argument / assigned NamingFormat / identifier
+}
+
 type tc struct {
 	T string `json:"t"`
 	C string `json:"c"`
+	H []hop  `json:"h"`
 }
 
 type res map[string]any
@@ -81,6 +88,55 @@ func hasNonASCII(s string) bool {
 	return false
 }
 
+// history runs the configuration operations of one case: NewConfig results are kept as handles
+// (the *Config NewConfig returned, error or not), the owner assigns to / reads from them and formats
+// names with them. Every result is reported as it comes.
+func history(ops []hop, tab map[rune][]any) []res {
+	cfgs := []*config.Config{}
+	obs := make([]res, 0, len(ops))
+	bad := res{"err": 9, "msg": ""}
+	for _, o := range ops {
+		sb, _ := hex.DecodeString(o.S)
+		s := string(sb)
+		runeTable(tab, s)
+		switch o.Op {
+		case "new":
+			var cfg *config.Config
+			r := callCfg(func() (string, error) {
+				c, err := config.NewConfig(s)
+				cfg = c
+				if err != nil {
+					return "", err
+				}
+				return c.NamingFormat, nil
+			})
+			cfgs = append(cfgs, cfg)
+			obs = append(obs, r)
+		case "set":
+			if o.I < 0 || o.I >= len(cfgs) {
+				obs = append(obs, bad)
+				continue
+			}
+			obs = append(obs, callStr(func() (string, error) { cfgs[o.I].NamingFormat = s; return "", nil }))
+		case "read":
+			if o.I < 0 || o.I >= len(cfgs) {
+				obs = append(obs, bad)
+				continue
+			}
+			obs = append(obs, callStr(func() (string, error) { return cfgs[o.I].NamingFormat, nil }))
+		case "fmt":
+			if o.I < 0 || o.I >= len(cfgs) {
+				obs = append(obs, bad)
+				continue
+			}
+			obs = append(obs, callStr(func() (string, error) { return format.FileNamingFormat(cfgs[o.I].NamingFormat, s) }))
+		default:
+			obs = append(obs, res{"error": "bad op " + o.Op})
+		}
+	}
+	return obs
+}
+
 func one(c tc) res {
 	tb, err1 := hex.DecodeString(c.T)
 	cb, err2 := hex.DecodeString(c.C)
@@ -120,8 +176,11 @@ func one(c tc) res {
 	}
 	out["fmt2"] = callStr(func() (string, error) { return format.FileNamingFormat(tmpl, content) })
 
-	// tabulation of library data (not of the code under test)
+	// a history of configurations kept alive side by side in this process
 	tab := map[rune][]any{}
+	out["hobs"] = history(c.H, tab)
+
+	// tabulation of library data (not of the code under test)
 	runeTable(tab, "\uFFFD")
 	runeTable(tab, content)
 	runeTable(tab, tmpl)
